@@ -36,6 +36,19 @@ def extend_history(ctx, sess, regs, n_ops, odd_bounds=False):
                     continue
                 regs.append(reg)
                 steps.append((k, (base, lo, hi), reg))
+    # and / or of two markers that split one key at the same points, where the combined children of neighbouring ranges coincide: must be merged
+    for k, ta, tb in (('or', "(python_full_version == '3.8.*' and os_name == 'a') or python_full_version >= '3.9'", "(python_full_version == '3.8.*' and os_name != 'a') or python_full_version >= '3.9'"),
+                      ('or', "(python_full_version < '3.8' and os_name == 'posix') or (python_full_version >= '3.9' and sys_platform == 'linux')", "python_full_version >= '3.8' and python_full_version < '3.9' and os_name == 'posix'"),
+                      ('or', "os_name < 'b' or (os_name == 'b' and extra == 'x')", "os_name < 'b' or (os_name == 'b' and extra != 'x')"),
+                      ('and', "(python_full_version == '3.8.*' or os_name == 'a') and python_full_version >= '3.8'", "(python_full_version == '3.8.*' or os_name != 'a') and python_full_version >= '3.8'"),
+                      ('and', "python_full_version >= '3.8' and (python_full_version < '3.9' or extra == 'x')", "python_full_version >= '3.8' and (python_full_version < '3.9' or extra != 'x')")):
+        ra, rb = sess.parse(ta)[0], sess.parse(tb)[0]
+        if ra is None or rb is None:
+            continue
+        reg, r = sess.op(k, ra, rb)
+        if reg is not None:
+            regs.append(reg)
+            steps.append((k, (ra, rb), reg))
     for _ in range(n_ops):
         k = ctx.rng.choice(['simpx', 'simppv', 'cplxpv'])
         a = ctx.rng.choice(regs)
